@@ -31,6 +31,11 @@ CLAIMED = {
         technique="TLA+ sequential semantics of operator pipelines (ExecSem.tla) evaluated by TLC as the oracle for every recorded run of the same pipeline under pull, push (chunk sizes), spilling (thresholds) and parallel (workers x morsel sizes) execution, and for the parallel merge helpers on partitioned tables",
         text="Generated tables (0..25 rows with NULLs and duplicates; 1023..4097 rows around morsel / chunk boundaries; key column as int, string, timestamp, float, bool, mixed numeric) x pipelines (filters, projection, distinct, sort with NULL placement and direction, global / grouped aggregates, limit / skip) x execution modes. TLC computes Seq(ops, table) and compares every run (sequence equality; bags for parallel runs and aggregates); large tables are checked for agreement of all modes. Spill directory must be empty afterwards. merge_sorted_runs / merge_sorted_chunks / merge_distinct_results / MergeableAccumulator / fold helpers / generate_morsels are checked against the same definitions.",
         note="Worker thread schedules are sampled by repetition, not enumerated. Joins, adaptive execution, async spill and graph scan sources are not covered."),
+    "C12": dict(
+        engine="front", category="exploration", design_ref="DESIGN.md §7 C12",
+        technique="the input space of the five query front ends as a TLA+ state machine (QueryGen.tla): TLC enumerates every token sequence up to a bound plus bracket-balanced random behaviours; with a mutation corpus of valid queries (truncations, special characters, deep nests, huge literals, parameter maps) every text is executed in a supervised child process (panic caught, abort and hang detected, memory capped); TLC judges the recorded outcomes (Trace_Front.tla)",
+        text="Per language all sequences of <= 2 (quick) / <= 3 (thorough) tokens over an alphabet of 52-68 tokens (keywords, punctuation, extreme numbers, unterminated strings, NUL, backslash, non-ASCII), random balanced texts to 8 / 12 tokens, and 6-13 valid seed queries with every truncation, each position replaced by 27 special characters, 10 parameter maps, nests of depth 10..10^5 and literals to 10^6 characters; each on a populated and an empty database. Outcome must be a result or an error value.",
+        note="Grammar-unaware beyond tokens; far shallower than coverage-guided fuzzing. Deep nesting aborts the process in every language (known findings). The C binding is not built."),
     "C07": dict(
         engine="txn", category="model_checking", design_ref="DESIGN.md §7 C07",
         technique="copies (import(export), to_memory, save+open, open_in_memory) logged after every action of multi-session histories and validated by TLC against Mvcc.tla (mechanism enumeration or committed graph); plus bit-exact value-fidelity checks and child-process enumeration of truncated / bit-flipped snapshots",
@@ -106,6 +111,8 @@ CLAIMED = {
 REASON_PENDING = "not claimed yet in this round: specification and conformance binding for this property are designed (DESIGN.md §7) but not built; no check is registered rather than an unsound one"
 
 ENGINES = [
+    dict(name="front", path="spec/front", serves_properties=["C12"],
+         kind_free_text="TLA+ QueryGen.tla (token-sequence input space, enumerated / simulated by TLC) and Trace_Front.tla (outcome judgement); harness `gv front` run as supervised child processes by checks/C12.py"),
     dict(name="exec", path="spec/exec", serves_properties=["C17"],
          kind_free_text="TLA+ ExecSem.tla (sequential meaning of operator pipelines + merge-helper definitions) evaluated by TLC; harness `gv exec` runs pull / push / spill / parallel modes"),
     dict(name="vector", path="spec/vector", serves_properties=["C18"],
